@@ -142,6 +142,22 @@ CLAIMED["C18"] = dict(
     technique="runtime monitoring: render/parse round-trip oracle with structural type equality",
 )
 
+CLAIMED["C13"] = dict(
+    category="exploration",
+    text="Generated values (arrays of every representation, records, variants, closures, partial applications, lazies, "
+         "run-time built strings, shared substructure, cycles through closures) are moved along every transfer route "
+         "(host: re_root, argument of another thread's function, module global read elsewhere; gluon: channel up and "
+         "round trip, captured value in a spawned action, `<-` into the parent's reference, forcing the parent's lazy "
+         "from a child) between root / child / grandchild / sibling / unrelated VM, followed by random orders of "
+         "collections and drops. Oracles: canonical graph shape (sharing and cycles explicit, hook value_shape) of the "
+         "received value equals the original's and stays equal; the heap-ownership walk finds no dangling edge and no "
+         "pointer into a heap that is neither the holder's own nor an ancestor's; ASan phases for use-after-free.",
+    design_ref="DESIGN.md §4 C13",
+    note="F10 (arrays of strings keep sender-heap strings) and F48 (shared lazies/references duplicated) found by this check "
+         "and repaired; F9 (closures moved to an unrelated VM keep pointing at the source VM's code) is listed.",
+    technique="runtime monitoring: heap-ownership invariant walk at quiescent points plus structural graph comparison, ASan",
+)
+
 CLAIMED["C15"] = dict(
     category="exploration",
     text="Edit histories (4-14 steps) over graphs of up to 6 in-memory modules - add (registered only or loaded), change "
